@@ -150,8 +150,10 @@ theorem genExecute_moves (Y : YieldFn) (s : Sess) (tk : PTask) (hid : tk.id = t)
     · exact h0
     · split
       · exact h0
-      · rw [← hid]
-        exact Moves.addRe s (invoke s tk) _ (hid ▸ h0)
+      · split
+        · exact h0
+        · rw [← hid]
+          exact Moves.addRe s (invoke s tk) _ (hid ▸ h0)
 
 theorem teardown_moves (s : Sess) (t : Nat) : Moves t s (teardown s t).1 := by
   unfold teardown
@@ -791,9 +793,11 @@ theorem genExecute_obs (Y : YieldFn) (s : Sess) (tk : PTask) :
     · simp [invoke]
     · split
       · simp [invoke]
-      · have h := recreate_frame { invoke s tk with tasks := (invoke s tk).tasks ++ Y tk.id (received tk) } tk.id
-        simp only [h.2.1, h.2.2.1, h.2.2.2.1, h.2.2.2.2.1, h.2.2.2.2.2.1]
-        simp [invoke]
+      · split
+        · simp [invoke]
+        · have h := recreate_frame { invoke s tk with tasks := (invoke s tk).tasks ++ Y tk.id (received tk) } tk.id
+          simp only [h.2.1, h.2.2.1, h.2.2.2.1, h.2.2.2.2.1, h.2.2.2.2.2.1]
+          simp [invoke]
 
 /-- Everything `runPhases` can do to the observable part of the session: either no body ran (world, body log and
 received-lists log are unchanged), or the body ran exactly once, on the task record left by the `provisional`
@@ -1180,18 +1184,56 @@ theorem complete_all_done {ts0 : List PTask} {s : Sess} {h : List Nat} (hi : LIn
       obtain ⟨a, ha, hv⟩ := List.mem_map.1 h1
       rw [← tv_inj' hv]; exact ha
 
+theorem findTask_isSome_any (ts : List PTask) (u : Nat) : (findTask ts u).isSome = ts.any (fun x => x.id == u) := by
+  unfold findTask
+  induction ts with
+  | nil => rfl
+  | cons x xs ih =>
+    simp only [List.find?_cons, List.any_cons]
+    cases h : (x.id == u) <;> simp [ih]
+
+theorem setTask_any_id (ts : List PTask) (tk' : PTask) (u : Nat) :
+    (setTask ts tk').any (fun x => x.id == u) = ts.any (fun x => x.id == u) := by
+  unfold setTask
+  induction ts with
+  | nil => rfl
+  | cons x xs ih =>
+    simp only [List.map_cons, List.any_cons, ih]
+    by_cases h : (x.id == tk'.id) = true
+    · have : x.id = tk'.id := by simpa using h
+      simp [h, this]
+    · simp [h]
+
+theorem nameClash_setupProvisional (s : Sess) (t : Nat) (kids : List PTask) :
+    nameClash (setupProvisional s t).tasks kids = nameClash s.tasks kids := by
+  have key : ∀ u, (findTask (setupProvisional s t).tasks u).isSome = (findTask s.tasks u).isSome := by
+    intro u
+    rw [findTask_isSome_any, findTask_isSome_any]
+    unfold setupProvisional
+    split
+    · rfl
+    · simp only []
+      split <;> split <;> (try rw [(recreate_frame _ t).1]) <;> (try simp only [setTask_any_id])
+  unfold nameClash
+  have : (kids.any fun k => (findTask (setupProvisional s t).tasks k.id).isSome) = (kids.any fun k => (findTask s.tasks k.id).isSome) := by
+    induction kids with
+    | nil => rfl
+    | cons k ks ih => simp only [List.any_cons, key, ih]
+  rw [this]
+
 /-- A generator that is not skipped, does not raise and defines only collectable tasks leaves every task it defined in
 `session.tasks`. -/
 theorem protocol_gen_tasks (Y : YieldFn) (F : BodyFn) (s : Sess) (g : Nat) (G : PTask) (hf : findTask s.tasks g = some G)
     (hgen : G.gen = true) (hnf : G.fails = false) (hfm : g ∉ s.failMarks)
     (hrn : g ∉ (setupProvisional s g).renewed)
-    (hcoll : ∀ x ∈ Y g (received (resolvedDeps s.w.fs G)), x.uncollectable = false) (k : PTask)
+    (hcoll : ∀ x ∈ Y g (received (resolvedDeps s.w.fs G)), x.uncollectable = false)
+    (hclash : nameClash s.tasks (Y g (received (resolvedDeps s.w.fs G))) = false) (k : PTask)
     (hk : k ∈ Y g (received (resolvedDeps s.w.fs G))) : k ∈ (protocol Y F s g).tasks := by
   have hsp := setupProvisional_spec s g G hf
   have hgen1 : (resolvedDeps s.w.fs G).gen = true := by unfold resolvedDeps; split <;> exact hgen
   have hnf1 : (resolvedDeps s.w.fs G).fails = false := by unfold resolvedDeps; split <;> exact hnf
   have hid : (resolvedDeps s.w.fs G).id = g := findTask_id hsp.2
-  generalize resolvedDeps s.w.fs G = G1 at hsp hgen1 hnf1 hid hk hcoll
+  generalize resolvedDeps s.w.fs G = G1 at hsp hgen1 hnf1 hid hk hcoll hclash
   unfold protocol
   rw [(reportChain_frame _ g _).1]
   unfold runPhases
@@ -1218,8 +1260,11 @@ theorem protocol_gen_tasks (Y : YieldFn) (F : BodyFn) (s : Sess) (g : Nat) (G : 
       | true =>
         obtain ⟨x, hx, hxu⟩ := List.any_eq_true.1 ha
         rw [hcoll x hx] at hxu; cases hxu
+    have hcl : nameClash (invoke (setupProvisional s g) G1).tasks (Y G1.id (received G1)) = false := by
+      show nameClash (setupProvisional s g).tasks _ = false
+      rw [nameClash_setupProvisional, hid]; exact hclash
     unfold genExecute
-    simp [hnf1, hne, hany]
+    simp [hnf1, hne, hany, hcl]
   rw [hge]
   simp only []
   have htasks : (recreate { invoke (setupProvisional s g) G1 with tasks := (invoke (setupProvisional s g) G1).tasks ++ Y G1.id (received G1) } G1.id).tasks
@@ -1701,7 +1746,9 @@ theorem genExecute_twp (Y : YieldFn) (s : Sess) (tk : PTask) (t : Nat) : TwpExt 
     · exact TwpExt.of_eq rfl
     · split
       · exact TwpExt.of_eq rfl
-      · exact TwpExt.of_eq (by rw [(recreate_frame _ _).2.2.2.2.2.2.1]; rfl)
+      · split
+        · exact TwpExt.of_eq rfl
+        · exact TwpExt.of_eq (by rw [(recreate_frame _ _).2.2.2.2.2.2.1]; rfl)
 
 theorem teardown_twp (s : Sess) (t : Nat) : TwpExt t s (teardown s t).1 := by
   unfold teardown
@@ -2050,6 +2097,285 @@ theorem initSess_twp {ts : List PTask} {w : World} {s0 : Sess} (h : initSess ts 
   · split at h
     · cases h
     · cases h; rfl
+
+/-! ## `skip_ancestor_failed` marks: where they come from, and that they cover everything below a failed task -/
+
+/-- What a protocol does to graph / reports / fail marks / stop flag before its report is processed: nothing, or
+`recreate_dag` on a session with these fields unchanged. -/
+inductive Marks (t : Nat) : Sess → Sess → Prop
+  | refl (s : Sess) : Marks t s s
+  | other (s s' s'' : Sess) : Marks t s s' → s''.g = s'.g → s''.reports = s'.reports → s''.failMarks = s'.failMarks →
+      s''.renewed = s'.renewed → s''.stop = s'.stop → Marks t s s''
+  | re (s s' x : Sess) : Marks t s s' → x.g = s'.g → x.reports = s'.reports → x.failMarks = s'.failMarks →
+      x.renewed = s'.renewed → x.stop = s'.stop → Marks t s (recreate x t)
+
+theorem Marks.trans {t : Nat} {a b c : Sess} (h1 : Marks t a b) (h2 : Marks t b c) : Marks t a c := by
+  induction h2 with
+  | refl => exact h1
+  | other s' s'' _ e1 e2 e3 e4 e5 ih => exact Marks.other _ _ _ ih e1 e2 e3 e4 e5
+  | re s' x _ e1 e2 e3 e4 e5 ih => exact Marks.re _ _ x ih e1 e2 e3 e4 e5
+
+theorem Marks.re_self {t : Nat} (s : Sess) : Marks t s (recreate s t) := Marks.re s s s (Marks.refl s) rfl rfl rfl rfl rfl
+
+theorem setupProvisional_marks (s : Sess) (t : Nat) : Marks t s (setupProvisional s t) := by
+  unfold setupProvisional
+  split
+  · exact Marks.refl s
+  · simp only []
+    split <;> split <;> first
+      | exact Marks.re s s _ (Marks.refl s) rfl rfl rfl rfl rfl
+      | exact Marks.refl s
+      | exact Marks.other s s _ (Marks.refl s) rfl rfl rfl rfl rfl
+
+theorem collectProducts_marks (s : Sess) (t : Nat) : Marks t s (collectProducts s t) := by
+  unfold collectProducts
+  split
+  · exact Marks.refl s
+  · simp only []
+    split
+    · exact Marks.refl s
+    · split <;> split <;> first
+        | exact Marks.re s s _ (Marks.refl s) rfl rfl rfl rfl rfl
+        | exact Marks.refl s
+        | exact Marks.other s s _ (Marks.refl s) rfl rfl rfl rfl rfl
+
+theorem setupExecute_marks (s : Sess) (t : Nat) : Marks t s (setupExecute s t).1 := by
+  unfold setupExecute
+  split
+  · exact Marks.refl s
+  · split
+    · exact Marks.refl s
+    · split
+      · exact Marks.refl s
+      · exact Marks.refl s
+      · exact collectProducts_marks s t
+
+theorem genExecute_marks (Y : YieldFn) (s : Sess) (tk : PTask) (hid : tk.id = t) : Marks t s (genExecute Y s tk).1 := by
+  unfold genExecute
+  have h0 : Marks t s (invoke s tk) := Marks.other s s _ (Marks.refl s) rfl rfl rfl rfl rfl
+  simp only []
+  split
+  · exact h0
+  · split
+    · exact h0
+    · split
+      · exact h0
+      · split
+        · exact h0
+        · rw [← hid]
+          exact Marks.re s s _ (Marks.refl s) rfl rfl rfl rfl rfl
+
+theorem teardown_marks (s : Sess) (t : Nat) : Marks t s (teardown s t).1 := by
+  unfold teardown
+  split
+  · exact Marks.refl s
+  · split
+    · exact Marks.refl s
+    · split
+      · exact Marks.refl s
+      · simp only []
+        split
+        · exact collectProducts_marks s t
+        · split <;> exact collectProducts_marks s t
+
+theorem runPhases_marks (Y : YieldFn) (F : BodyFn) (s : Sess) (t : Nat) : Marks t s (runPhases Y F s t).1 := by
+  unfold runPhases
+  rw [setupChain_eval]
+  by_cases hfm : failMarked (setupProvisional s t) t = true
+  · simp only [hfm, if_true]; exact setupProvisional_marks s t
+  · simp only [hfm, Bool.false_eq_true, if_false]
+    have h1 := (setupProvisional_marks s t).trans (setupExecute_marks (setupProvisional s t) t)
+    generalize setupExecute (setupProvisional s t) t = r2 at h1 ⊢
+    obtain ⟨s2, ra⟩ := r2
+    cases ra with
+    | none =>
+      simp only []
+      have h2 : Marks t s2 (execChain Y F t Generated.executeOrder s2).1 := by
+        rw [execChain_eval]
+        cases hf : findTask s2.tasks t with
+        | none => exact Marks.refl s2
+        | some tk =>
+          simp only []
+          split
+          · exact genExecute_marks Y s2 tk (findTask_id hf)
+          · exact Marks.other s2 s2 _ (Marks.refl s2) rfl rfl rfl rfl rfl
+      generalize execChain Y F t Generated.executeOrder s2 = r3 at h2 ⊢
+      obtain ⟨s3, b⟩ := r3
+      cases b with
+      | true => exact h1.trans h2
+      | false => exact (h1.trans h2).trans (teardown_marks s3 t)
+    | _ => exact h1
+
+/-- No task has been reported FAIL so far. -/
+def NoFail (s : Sess) : Prop := ∀ r ∈ s.reports, r.2 ≠ Outcome.fail
+
+/-- As long as nothing failed, no task carries a `skip_ancestor_failed` mark. -/
+def CleanMarks (s : Sess) : Prop := NoFail s → s.failMarks = [] ∧ s.renewed = []
+
+/-- Everything below a task reported FAIL — in the *current* graph — carries a `skip_ancestor_failed` mark. -/
+def BelowFailedMarked (s : Sess) : Prop :=
+  s.stop = false → ∀ f d, (f, Outcome.fail) ∈ s.reports → d ∈ taskDesc s.g f → failMarked s d = true
+
+theorem renewFailMarks_nofail (g : G) (s : Sess) (h : NoFail s) : renewFailMarks g s = s.renewed := by
+  unfold renewFailMarks
+  have : s.reports.filter (fun r => r.2 == Outcome.fail) = [] := by
+    rw [List.filter_eq_nil_iff]
+    intro r hr; simpa using h r hr
+  rw [this]; simp
+
+theorem recreate_marks_spec (x : Sess) (t : Nat) :
+    (recreate x t).failMarks = x.failMarks ∧ (∃ l, (recreate x t).reports = x.reports ++ l) ∧
+    (NoFail x → (recreate x t).renewed = x.renewed) ∧ BelowFailedMarked (recreate x t) := by
+  unfold recreate
+  cases hc : createDag (toProject x.tasks) {} with
+  | error e => exact ⟨rfl, ⟨_, rfl⟩, fun _ => rfl, fun hs => by simp at hs⟩
+  | ok gm =>
+    obtain ⟨g, m⟩ := gm
+    simp only []
+    cases hs : Sorter.fromDagAndSorter g isTaskV prio0 x.so with
+    | error e => exact ⟨rfl, ⟨_, rfl⟩, fun h => renewFailMarks_nofail g x h, fun hs => by simp at hs⟩
+    | ok so =>
+      refine ⟨rfl, ⟨[], by simp⟩, fun h => renewFailMarks_nofail g x h, fun _ f d hf hd => ?_⟩
+      simp only [] at hf hd
+      unfold failMarked renewFailMarks
+      simp only []
+      simp
+      by_cases h1 : d ∈ x.failMarks
+      · exact Or.inl h1
+      · by_cases h2 : d ∈ x.renewed
+        · exact Or.inr (Or.inl h2)
+        · exact Or.inr (Or.inr ⟨⟨f, hf, hd⟩, h1, h2⟩)
+
+theorem NoFail.of_append {s s' : Sess} {l : List (Nat × Outcome)} (h : s'.reports = s.reports ++ l) (hn : NoFail s') : NoFail s :=
+  fun r hr => hn r (by rw [h]; exact List.mem_append.2 (Or.inl hr))
+
+theorem Marks.invariants {t : Nat} {s s' : Sess} (h : Marks t s s') :
+    (∃ l, s'.reports = s.reports ++ l) ∧ s'.failMarks = s.failMarks ∧ (s.stop = true → s'.stop = true) ∧
+    (CleanMarks s → CleanMarks s') ∧ (BelowFailedMarked s → BelowFailedMarked s') := by
+  induction h with
+  | refl => exact ⟨⟨[], by simp⟩, rfl, id, id, id⟩
+  | other s' s'' _ e1 e2 e3 e4 e5 ih =>
+    obtain ⟨⟨l, hl⟩, hf, hst, hc, hb⟩ := ih
+    refine ⟨⟨l, by rw [e2, hl]⟩, by rw [e3, hf], fun h => by rw [e5]; exact hst h, fun hcs hn => ?_, fun hbs hs f d hfr hd => ?_⟩
+    · have := hc hcs (fun r hr => hn r (by rw [e2]; exact hr))
+      rw [e3, e4]; exact this
+    · have := hb hbs (by rw [← e5]; exact hs) f d (by rw [← e2]; exact hfr) (by rw [← e1]; exact hd)
+      unfold failMarked at this ⊢; rw [e3, e4]; exact this
+  | re s' x _ e1 e2 e3 e4 e5 ih =>
+    obtain ⟨⟨l, hl⟩, hf, hst, hc, _⟩ := ih
+    obtain ⟨r1, ⟨l2, r2⟩, r3, r4⟩ := recreate_marks_spec x t
+    refine ⟨⟨l ++ l2, by rw [r2, e2, hl, List.append_assoc]⟩, by rw [r1, e3, hf],
+      fun h => (recreate_frame x t).2.2.2.2.2.2.2 (by rw [e5]; exact hst h), fun hcs hn => ?_, fun _ => r4⟩
+    have hnx : NoFail x := NoFail.of_append r2 hn
+    have := hc hcs (fun r hr => hnx r (by rw [e2]; exact hr))
+    rw [r1, r3 hnx, e3, e4]; exact this
+
+theorem reportChain_marks (s : Sess) (t : Nat) (r : Raised) :
+    (CleanMarks s → CleanMarks (reportChain t r Generated.processReportOrder s)) ∧
+    (BelowFailedMarked s → BelowFailedMarked (reportChain t r Generated.processReportOrder s)) := by
+  rw [reportChain_eval]
+  have key : ∀ (s' : Sess) (o : Outcome), o ≠ Outcome.fail → s'.reports = s.reports ++ [(t, o)] → s'.failMarks = s.failMarks →
+      s'.renewed = s.renewed → s'.g = s.g → s'.stop = s.stop →
+      (CleanMarks s → CleanMarks s') ∧ (BelowFailedMarked s → BelowFailedMarked s') := by
+    intro s' o ho e1 e2 e3 e4 e5
+    refine ⟨fun hc hn => ?_, fun hb hs f d hf hd => ?_⟩
+    · have := hc (fun r hr => hn r (by rw [e1]; exact List.mem_append.2 (Or.inl hr)))
+      rw [e2, e3]; exact this
+    · rw [e1] at hf
+      rcases List.mem_append.1 hf with hf | hf
+      · have := hb (by rw [← e5]; exact hs) f d hf (by rw [← e4]; exact hd)
+        unfold failMarked at this ⊢; rw [e2, e3]; exact this
+      · simp only [List.mem_singleton, Prod.mk.injEq] at hf
+        exact absurd hf.2.symm ho
+  have crash : ∀ s' : Sess, s'.reports = s.reports → s'.failMarks = s.failMarks → s'.renewed = s.renewed → s'.g = s.g →
+      s'.stop = s.stop → (CleanMarks s → CleanMarks s') ∧ (BelowFailedMarked s → BelowFailedMarked s') := by
+    intro s' e1 e2 e3 e4 e5
+    refine ⟨fun hc hn => ?_, fun hb hs f d hf hd => ?_⟩
+    · have := hc (fun r hr => hn r (by rw [e1]; exact hr)); rw [e2, e3]; exact this
+    · have := hb (by rw [← e5]; exact hs) f d (by rw [← e1]; exact hf) (by rw [← e4]; exact hd)
+      unfold failMarked at this ⊢; rw [e2, e3]; exact this
+  have failc : (CleanMarks s → CleanMarks ({ addReport s t .fail with failMarks := s.failMarks ++ taskDesc s.g t } : Sess)) ∧
+      (BelowFailedMarked s → BelowFailedMarked ({ addReport s t .fail with failMarks := s.failMarks ++ taskDesc s.g t } : Sess)) := by
+    refine ⟨fun _ hn => ?_, fun hb hs f d hf hd => ?_⟩
+    · exact absurd rfl (hn (t, Outcome.fail) (by simp [addReport]))
+    · simp only [addReport] at hf hd hs
+      rcases List.mem_append.1 hf with hf | hf
+      · have := hb hs f d hf hd
+        unfold failMarked at this ⊢
+        simp only [Bool.or_eq_true, List.contains_iff_mem, List.mem_append] at this ⊢
+        rcases this with h | h
+        · exact Or.inl (Or.inl h)
+        · exact Or.inr h
+      · simp only [List.mem_singleton, Prod.mk.injEq] at hf
+        unfold failMarked
+        simp only [Bool.or_eq_true, List.contains_iff_mem, List.mem_append]
+        exact Or.inl (Or.inr (by rw [← hf.1]; exact hd))
+  cases r with
+  | none =>
+    simp only []
+    split
+    · exact key _ .success (by simp) rfl rfl rfl rfl rfl
+    · split
+      · exact key _ .success (by simp) rfl rfl rfl rfl rfl
+      · exact crash _ rfl rfl rfl rfl rfl
+  | skippedUnchanged => exact key _ .skipUnchanged (by simp) rfl rfl rfl rfl rfl
+  | ancestorFailed => exact key _ .skipPrevFailed (by simp) rfl rfl rfl rfl rfl
+  | skipped => exact failc
+  | persisted => exact failc
+  | wouldBeExecuted => exact failc
+  | error => exact failc
+
+theorem protocol_marks (Y : YieldFn) (F : BodyFn) (s : Sess) (t : Nat) :
+    (CleanMarks s → CleanMarks (protocol Y F s t)) ∧ (BelowFailedMarked s → BelowFailedMarked (protocol Y F s t)) := by
+  unfold protocol
+  have h1 := (runPhases_marks Y F s t).invariants
+  have h2 := reportChain_marks (runPhases Y F s t).1 t (runPhases Y F s t).2
+  exact ⟨fun h => h2.1 (h1.2.2.2.1 h), fun h => h2.2 (h1.2.2.2.2 h)⟩
+
+theorem loop_marks {Y : YieldFn} {F : BodyFn} : ∀ (picks : List Nat) (s s' : Sess), loop Y F s picks = .ok s' →
+    (CleanMarks s → CleanMarks s') ∧ (BelowFailedMarked s → BelowFailedMarked s')
+  | [], s, s', h => by simp only [loop, Except.ok.injEq] at h; subst h; exact ⟨id, id⟩
+  | t :: ts, s, s', h => by
+    obtain ⟨_, _, _, _, h5⟩ := loop_cons h
+    have ih := loop_marks ts _ s' h5
+    have hp := protocol_marks Y F { s with so := s.so.take [tv t] } t
+    have e : ∀ x : Sess, (CleanMarks x ↔ CleanMarks { x with so := x.so.finish [tv t] }) ∧
+        (BelowFailedMarked x ↔ BelowFailedMarked { x with so := x.so.finish [tv t] }) := fun x => ⟨Iff.rfl, Iff.rfl⟩
+    exact ⟨fun hc => ih.1 (hp.1 hc), fun hb => ih.2 (hp.2 hb)⟩
+
+theorem initSess_marks {ts : List PTask} {w : World} {s0 : Sess} (h : initSess ts w = some s0) :
+    CleanMarks s0 ∧ BelowFailedMarked s0 := by
+  unfold initSess at h
+  split at h
+  · cases h
+  · split at h
+    · cases h
+    · cases h
+      exact ⟨fun _ => ⟨rfl, rfl⟩, fun _ f d hf _ => by cases hf⟩
+
+theorem recreate_stop_reports (x : Sess) (t : Nat) (h : (recreate x t).stop = false) : (recreate x t).reports = x.reports := by
+  unfold recreate at h ⊢
+  split
+  · rename_i hc; rw [hc] at h; simp at h
+  · rename_i g m hc
+    rw [hc] at h
+    simp only [] at h ⊢
+    split
+    · rename_i hs; rw [hs] at h; simp at h
+    · rfl
+
+theorem Marks.reports_of_running {t : Nat} {s s' : Sess} (h : Marks t s s') (hs : s'.stop = false) : s'.reports = s.reports := by
+  induction h with
+  | refl => rfl
+  | other s' s'' _ _ e2 _ _ e5 ih => rw [e2]; exact ih (by rw [← e5]; exact hs)
+  | re s' x hm _ e2 _ _ e5 ih =>
+    rw [recreate_stop_reports x t hs, e2]
+    apply ih
+    cases hst : s'.stop with
+    | false => rfl
+    | true =>
+      have := (recreate_frame x t).2.2.2.2.2.2.2 (by rw [e5]; exact hst)
+      rw [this] at hs; cases hs
 
 end Prov
 end Pytask
